@@ -74,6 +74,31 @@ Tpl(id) ==
                           rxns |-> <<Rx("v0", <<>>, <<"A">>, <<"k0">>),
                                      Rx("v1", <<"A">>, <<"B", "B">>, <<"A", "k1">>),
                                      Rx("v2", <<"B">>, <<>>, <<"k2", "B">>)>>]
+      \* three units on one side; homo3 mentions the doubled substrate non-adjacently in the rate arguments
+      [] id = "tri3"  -> [cpds |-> <<"A", "B", "C", "D">>,
+                          init |-> [A |-> 12, B |-> 6, C |-> 4, D |-> 3],
+                          pars |-> [k0 |-> 288, k3 |-> 288, k4 |-> 288, k1 |-> 1, k2 |-> 96],
+                          rxns |-> <<Rx("v0", <<>>, <<"A">>, <<"k0">>), Rx("v3", <<>>, <<"B">>, <<"k3">>),
+                                     Rx("v4", <<>>, <<"C">>, <<"k4">>),
+                                     Rx("v1", <<"A", "B", "C">>, <<"D">>, <<"A", "B", "C", "k1">>),
+                                     Rx("v2", <<"D">>, <<>>, <<"k2", "D">>)>>]
+      [] id = "split3" -> [cpds |-> <<"A", "B", "C", "D">>,
+                          init |-> [A |-> 12, B |-> 6, C |-> 4, D |-> 3],
+                          pars |-> [k0 |-> 12, k1 |-> 1, k2 |-> 2, k3 |-> 3, k4 |-> 4],
+                          rxns |-> <<Rx("v0", <<>>, <<"A">>, <<"k0">>),
+                                     Rx("v1", <<"A">>, <<"B", "C", "D">>, <<"k1", "A">>),
+                                     Rx("v2", <<"B">>, <<>>, <<"k2", "B">>), Rx("v3", <<"C">>, <<>>, <<"k3", "C">>),
+                                     Rx("v4", <<"D">>, <<>>, <<"k4", "D">>)>>]
+      [] id = "homo3" -> [cpds |-> <<"A", "B", "C">>,
+                          init |-> [A |-> 6, B |-> 4, C |-> 12], pars |-> [k0 |-> 288, k3 |-> 144, k1 |-> 1, k2 |-> 12],
+                          rxns |-> <<Rx("v0", <<>>, <<"A">>, <<"k0">>), Rx("v3", <<>>, <<"B">>, <<"k3">>),
+                                     Rx("v1", <<"A", "A", "B">>, <<"C">>, <<"A", "B", "A", "k1">>),
+                                     Rx("v2", <<"C">>, <<>>, <<"C", "k2">>)>>]
+      [] id = "trimer" -> [cpds |-> <<"A", "B">>,
+                          init |-> [A |-> 12, B |-> 6], pars |-> [k0 |-> 12, k1 |-> 1, k2 |-> 6],
+                          rxns |-> <<Rx("v0", <<>>, <<"A">>, <<"k0">>),
+                                     Rx("v1", <<"A">>, <<"B", "B", "B">>, <<"A", "k1">>),
+                                     Rx("v2", <<"B">>, <<>>, <<"k2", "B">>)>>]
       [] id = "tri"   -> [cpds |-> <<"A", "B", "C">>,
                           init |-> [A |-> 12, B |-> 6, C |-> 4], pars |-> [k1 |-> 1, k2 |-> 2, k3 |-> 3],
                           rxns |-> <<Rx("v1", <<"A">>, <<"B">>, <<"A", "k1">>),
@@ -176,6 +201,9 @@ Compute(d) ==
         iso |-> IsoEnrichRateD(b, y, isody),
         lin |-> [k \in 1..Len(Xs) |-> LinRhs(b, pool, flux, e0, Xs[k], LinMode)],
         uni |-> [k \in 1..Len(Xs) |-> LinRhs(b, pool, flux, uni(Xs[k]), Xs[k], LinMode)],
+        \* the model is homogeneous of degree 0 in (pools, fluxes): the unit of amount does not matter
+        scaled |-> [m \in 2..3 |-> LinRhs(b, [c \in DOMAIN pool |-> m * pool[c]], [j \in DOMAIN flux |-> m * flux[j]],
+                                         e0, Xs[2], LinMode)],
         pin |-> IF inv THEN [k \in 1..Len(Xs) |-> LinRhs(b, pool, flux, e0, Xs[k], "pinned")] ELSE <<>>,
         doc |-> IF inv THEN [k \in 1..Len(Xs) |-> LinRhs(b, pool, flux, e0, Xs[k], "doc")] ELSE <<>>]
 
@@ -191,6 +219,7 @@ PickDist ==
 Next == PickNL \/ PickEntry \/ PickDist
 Done == stage = "done"
 
+SmallUnit == 24      \* pools 4..12 become 2.4e-7 .. 7.2e-7
 ZeroFn == [n \in DOMAIN sc.e0 |-> Q!Zero]
 
 \* histories of the external enrichment (indices into Xs): build_model(external_label = Xs[h[1]]), then
@@ -210,6 +239,9 @@ HistEvals ==
 Scenario ==
     [tpl |-> sc.tpl, ord |-> sc.ord, b |-> sc.b, dk |-> sc.dk, pool |-> sc.pool, flux |-> sc.flux, y |-> sc.y, isody |-> sc.isody,
      involutive |-> sc.involutive, hist |-> HistEvals,
+     \* the same case with amounts in a unit 2^SmallUnit times larger (pools and fluxes 2^-SmallUnit times the numbers):
+     \* by ThScale the rates are those of the case itself
+     unit_evals |-> <<[unit |-> SmallUnit, x |-> Xs[2], e |-> sc.e0, de |-> sc.lin[2]]>>,
      evals |-> <<[what |-> "isotopomer-derived", x |-> Q!One, e |-> sc.e0, de |-> sc.iso]>>
                \o [k \in 1..2 |-> [what |-> "linear definition, EXT below 1", x |-> Xs[k], e |-> sc.e0, de |-> sc.lin[k]]]
                \o [k \in 1..Len(Xs) |-> [what |-> "uniform enrichment equal to EXT", x |-> Xs[k],
@@ -225,6 +257,7 @@ ThZero     == Done => sc.uni[1] = ZeroFn                                   \* Xs
 \* the model's answer depends on the external enrichment last set, not on the one it was built with
 ThParam    == Done => \A i \in 1..Len(Hists) : \A j \in 2..Len(Hists[i]) :
                  AfterHistory([q \in 1..j |-> Xs[Hists[i][q]]]) = BuiltModel(Xs[Hists[i][j]])
+ThScale    == Done => \A m \in 2..3 : sc.scaled[m] = sc.lin[2]
 ThInvol    == (Done /\ sc.involutive) => sc.pin = sc.doc
 \* every rational stayed in Rat's safe range
 ThSafe     == Done => \A n \in DOMAIN sc.e0 : Q!IsRat(sc.iso[n]) /\ Q!IsRat(sc.e0[n]) /\ \A k \in 1..Len(Xs) : Q!IsRat(sc.lin[k][n])
